@@ -206,3 +206,48 @@ def rapply_orders(rf, dimfuncs):
             seen.add(c)
             outs.append(out)
     return outs
+
+
+# --------------------------------------------------------------------------
+# stack
+
+def rstack(files, d):
+    f0 = files[0]
+    if d not in f0.dims:
+        raise OutOfDomain('unknown dimension')
+    for f in files[1:]:
+        if list(f.dims) != list(f0.dims) and set(f.dims) != set(f0.dims):
+            raise OutOfDomain('dimension names differ')
+        for k, (n, u) in f.dims.items():
+            if k != d and n != f0.dims[k][0]:
+                raise OutOfDomain('length of %s differs' % k)
+        if set(f.vars) != set(f0.vars):
+            raise OutOfDomain('variable names differ')
+        for k, v in f.vars.items():
+            if v.dims != f0.vars[k].dims or v.data.dtype != f0.vars[k].data.dtype:
+                raise OutOfDomain('variable %s differs in dims/dtype' % k)
+    out = RFile()
+    out.cls = f0.cls
+    out.attrs = OrderedDict(f0.attrs)
+    out.coords = set(f0.coords)
+    for k, (n, u) in f0.dims.items():
+        out.dims[k] = [sum(f.dims[d][0] for f in files) if k == d else n, u]
+    for k, v in f0.vars.items():
+        if d in v.dims:
+            ax = v.dims.index(d)
+            data = np.concatenate([f.vars[k].data for f in files], axis=ax)
+            mask = np.concatenate([f.vars[k].mask for f in files], axis=ax)
+            out.vars[k] = RVar(v.dims, data, mask, v.attrs, v.fill, v.masked)
+        else:
+            out.vars[k] = v.copy()
+    return out
+
+
+def compositions(n):
+    """all ways to cut 0..n into consecutive non-empty pieces: list of lists of (a, b)"""
+    outs = []
+    for bits in range(2 ** max(n - 1, 0)):
+        cuts = [0] + [i + 1 for i in range(n - 1) if bits >> i & 1] + [n]
+        outs.append([(cuts[i], cuts[i + 1]) for i in range(len(cuts) - 1)])
+    outs.sort(key=lambda c: (len(c), c))
+    return outs
